@@ -11,6 +11,7 @@ package an
 import (
 	_ "embed"
 	"fmt"
+	"go/ast"
 	"go/types"
 	"sort"
 	"strings"
@@ -21,7 +22,10 @@ import (
 //go:embed knowninv.txt
 var knownInvTxt string
 
-type invFunc struct{ pkg, name, sig string }
+type invFunc struct {
+	pkg, name, sig string
+	calls          []string // names of the functions it references (call fingerprint)
+}
 type invConst struct{ pkg, name, ty, val string }
 type invType struct{ pkg, name, fp string }
 type invField struct {
@@ -41,8 +45,12 @@ func init() {
 	for _, l := range strings.Split(knownInvTxt, "\n") {
 		f := strings.Split(l, "\t")
 		switch {
-		case len(f) == 4 && f[0] == "F":
-			invFuncs = append(invFuncs, invFunc{f[1], f[2], f[3]})
+		case (len(f) == 4 || len(f) == 5) && f[0] == "F":
+			fn := invFunc{pkg: f[1], name: f[2], sig: f[3]}
+			if len(f) == 5 && f[4] != "" {
+				fn.calls = strings.Split(f[4], ",")
+			}
+			invFuncs = append(invFuncs, fn)
 		case len(f) == 4 && f[0] == "T":
 			invTypes = append(invTypes, invType{f[1], f[2], f[3]})
 		case len(f) == 5 && f[0] == "K":
@@ -126,12 +134,13 @@ func InventoryLines(pkgs []*packages.Package) []string {
 		if pk.Types == nil {
 			continue
 		}
+		fps := callFingerprints(pk)
 		for _, f := range declaredFuncs(pk.Types) {
 			sig, _ := f.Type().(*types.Signature)
 			if sig == nil {
 				continue
 			}
-			out = append(out, fmt.Sprintf("F\t%s\t%s\t%s", pk.PkgPath, funcName(f), sigString(sig)))
+			out = append(out, fmt.Sprintf("F\t%s\t%s\t%s\t%s", pk.PkgPath, funcName(f), sigString(sig), strings.Join(fps[f], ",")))
 		}
 		sc := pk.Types.Scope()
 		for _, nm := range sc.Names() {
@@ -160,6 +169,62 @@ func InventoryLines(pkgs []*packages.Package) []string {
 	}
 	sort.Strings(out)
 	return out
+}
+
+// callFingerprints returns, per declared function, the sorted names of the functions and methods its
+// body refers to. A renamed function keeps (most of) them; an unrelated function with the same signature does not.
+func callFingerprints(pk *packages.Package) map[*types.Func][]string {
+	out := map[*types.Func][]string{}
+	if pk.TypesInfo == nil {
+		return out
+	}
+	for _, file := range pk.Syntax {
+		for _, d := range file.Decls {
+			fd, ok := d.(*ast.FuncDecl)
+			if !ok || fd.Body == nil {
+				continue
+			}
+			obj, _ := pk.TypesInfo.Defs[fd.Name].(*types.Func)
+			if obj == nil {
+				continue
+			}
+			set := map[string]bool{}
+			ast.Inspect(fd.Body, func(x ast.Node) bool {
+				id, ok := x.(*ast.Ident)
+				if !ok {
+					return true
+				}
+				if f, ok := pk.TypesInfo.Uses[id].(*types.Func); ok {
+					set[f.Name()] = true
+				}
+				return true
+			})
+			var l []string
+			for k := range set {
+				l = append(l, k)
+			}
+			sort.Strings(l)
+			out[obj] = l
+		}
+	}
+	return out
+}
+
+func jaccard(a, b []string) float64 {
+	if len(a) == 0 && len(b) == 0 {
+		return 1
+	}
+	in := map[string]bool{}
+	for _, x := range a {
+		in[x] = true
+	}
+	n := 0
+	for _, x := range b {
+		if in[x] {
+			n++
+		}
+	}
+	return float64(n) / float64(len(a)+len(b)-n)
 }
 
 // typeFingerprint describes a named type independently of its own name: the
@@ -327,12 +392,18 @@ func FindRenames(pkgs []*packages.Package) *Renames {
 				}
 				return ""
 			}
+			fps := callFingerprints(pk)
+			// the renamed function's own old name may occur in its callers' fingerprints only; in its own
+			// body (recursion aside) names are stable, so compare directly
 			for _, m := range missing {
 				var cands []*types.Func
 				for _, e := range extra {
 					sig, _ := e.Type().(*types.Signature)
 					if sig == nil || recvOf(canonRecv(funcName(e))) != recvOf(m.name) || sigString(sig) != m.sig {
 						continue
+					}
+					if jaccard(m.calls, fps[e]) < 0.5 {
+						continue // same shape, different body: another function, not a rename
 					}
 					cands = append(cands, e)
 				}
